@@ -24,10 +24,19 @@ class Compound(Object):
     __mapper_args__ = {"polymorphic_identity": "compound"}
 
     def __call__(self):
+        if len(self.children) == 1:
+            # a ModifiedPrior (-p, abs(p), ...): one operand, stored under its attribute name
+            return self.cls(self.left(), name=self.left.name)
         return self.cls(self.left(), self.right())
 
     @classmethod
     def _from_object(cls, compound):
+        if hasattr(compound, "_prior_name"):
+            return Compound(
+                compound_type=compound.__class__.__name__,
+                children=[Object.from_object(compound.prior, name=compound._prior_name)],
+                cls=type(compound),
+            )
         if hasattr(compound, "assertion_1"):
             left, right = compound.assertion_1, compound.assertion_2
         else:
